@@ -2,18 +2,21 @@
 """Must-fail selftest corpus: applies each mutant (a textual replacement in one /repo file)
 to a scratch copy of /repo, runs the property's quick check against the copy and requires a
 VIOLATION naming the expected obligation. Scratch copies live under $TMPDIR and are removed
-immediately. Usage: selftest/run.py [-k substring] [-j N]"""
+immediately. Usage: selftest/run.py [-k substring] [-f file.json] [-j N]"""
 import json, os, sys, subprocess, tempfile, shutil, glob, concurrent.futures
 root = os.path.dirname(os.path.dirname(os.path.abspath(__file__)))
 flt = ""
-jobs = 3
+jobs = 2
+only = ""
 args = sys.argv[1:]
 while args:
     a = args.pop(0)
     if a == "-k": flt = args.pop(0)
     elif a == "-j": jobs = int(args.pop(0))
+    elif a == "-f": only = args.pop(0)
 muts = []
 for f in sorted(glob.glob(os.path.join(root, "selftest", "mutants", "*.json"))):
+    if only and os.path.basename(f) != only: continue
     for m in json.load(open(f)):
         if flt in m["name"] or flt in m["property"]:
             muts.append(m)
